@@ -1,185 +1,245 @@
 """Generated/EncoderConsts.v for C06: the constants the encoder / CRC-validation models depend on.
-  python/fusion_engine_client/messages/defs.py   MessageHeader.__init__ defaults (protocol_version, source id),
-                                                 the byte at which calculate_crc / validate_crc start the CRC
-  python/fusion_engine_client/parsers/encoder.py the statements of encode_message and how the counter advances
-  src/.../messages/crc.cc, crc.h, defs.h         offsetof(protocol_version), sizeof(MessageHeader), field offsets
-                                                 (from the compiler), the shape of CalculateCRC(buffer)/IsValid
-Fail closed: anything not recognised raises."""
-import ast, hashlib, os, re, subprocess, sys
+
+They are obtained by *evaluating* the working tree, never by matching its text, so a behaviour-preserving rewrite
+(named constants, renamed locals, reordered statements, early returns) leaves them unchanged:
+  * Python (subprocess, vf.IMPL_ENV): MessageHeader() defaults are read from a fresh object; the byte at which
+    calculate_crc() starts the CRC is the unique K for which its result equals zlib.crc32(packed_header[K:] + payload)
+    on probe headers (random fields, random stale crc); the byte at which validate_crc() starts is the unique K for
+    which a header whose crc field is zlib.crc32(buffer[off+K : off+24+size]) is accepted (offsets 0 and 5);
+    the sequence-counter rule of FusionEngineEncoder is observed by presetting sequence_number around 2^8, 2^16,
+    2^31, 2^32 and reading it back after one encode_message (modulus M if it always reads (s+1) mod M, 0 if it
+    always reads s+1).
+  * C++ (generated program compiled against the headers and linked with crc.cc): sizeof / offsetof of the public
+    header fields, size_t width, endianness; the byte at which CalculateCRC(buffer) starts is the unique K for which
+    it equals CalculateCRC(buffer + K, 24 - K + size, 0); IsValid() must accept a correct message of exactly
+    MAX_MESSAGE_SIZE_BYTES and refuse one of MAX_MESSAGE_SIZE_BYTES + 1, accept iff the stored CRC matches otherwise;
+    the default initial_value must behave as 0.
+Fail closed (raise) only when the observed behaviour is not of the modelled shape."""
+import hashlib, json, os, sys
 sys.path.insert(0, os.path.join(os.path.dirname(__file__), '..', 'lib'))
 import vf
 
-DEFS = 'python/fusion_engine_client/messages/defs.py'
-ENC = 'python/fusion_engine_client/parsers/encoder.py'
-CRC_CC = 'src/point_one/fusion_engine/messages/crc.cc'
-CRC_H = 'src/point_one/fusion_engine/messages/crc.h'
-DEFS_H = 'src/point_one/fusion_engine/messages/defs.h'
+PY_PROBE = r'''
+import json, random, struct, sys, zlib, logging
+logging.disable(logging.CRITICAL)
+from fusion_engine_client.messages.defs import MessageHeader
+from fusion_engine_client.parsers.encoder import FusionEngineEncoder
+rng = random.Random(606)
+out = {}
+h = MessageHeader()
+out['defaults'] = {k: int(getattr(h, k)) for k in ('reserved', 'crc', 'protocol_version', 'sequence_number', 'message_version',
+                                                   'payload_size_bytes', 'source_identifier')}
+out['default_type'] = int(h.message_type)
+out['typed'] = int(MessageHeader(12345).message_type)
+out['size'] = int(MessageHeader.calcsize())
 
+def fresh():
+    h = MessageHeader(rng.randrange(65536))
+    h.message_version = rng.randrange(256); h.sequence_number = rng.getrandbits(32); h.source_identifier = rng.getrandbits(32)
+    h.protocol_version = rng.randrange(256); h.crc = rng.getrandbits(32)
+    return h
 
-def _method(tree, cls, name):
-    for n in ast.walk(tree):
-        if isinstance(n, ast.ClassDef) and n.name == cls:
-            for st in n.body:
-                if isinstance(st, ast.FunctionDef) and st.name == name:
-                    return st
-    raise RuntimeError('gen_c06: %s.%s not found' % (cls, name))
+# calculate_crc: which K
+cands = set(range(out['size'] + 1))
+for _ in range(12):
+    h = fresh(); p = bytes(rng.getrandbits(8) for _ in range(rng.choice([0, 1, 5, 40])))
+    h.payload_size_bytes = len(p)
+    pre = bytes(h.pack())
+    got = h.calculate_crc(p)
+    if h.crc != got or h.payload_size_bytes != len(p):
+        raise SystemExit('gen_c06: calculate_crc does not store crc / payload_size_bytes')
+    cands &= {K for K in cands if zlib.crc32(pre[K:] + p) == got}
+out['calc_K'] = sorted(cands)
 
-
-def _norm(node):
-    return ast.unparse(node).strip()
-
-
-def py_consts():
-    tree = ast.parse(vf.repo_file(DEFS))
-    init = _method(tree, 'MessageHeader', '__init__')
-    defaults = {}
-    for st in init.body:
-        tgt = val = None
-        if isinstance(st, ast.AnnAssign):
-            tgt, val = st.target, st.value
-        elif isinstance(st, ast.Assign) and len(st.targets) == 1:
-            tgt, val = st.targets[0], st.value
-        if tgt is not None and isinstance(tgt, ast.Attribute) and _norm(tgt.value) == 'self':
-            defaults[tgt.attr] = _norm(val)
-    want = {'reserved': '0', 'crc': '0', 'sequence_number': '0', 'message_version': '0', 'payload_size_bytes': '0',
-            'message_type': 'message_type', 'source_identifier': 'MessageHeader.INVALID_SOURCE_ID'}
-    for k, v in want.items():
-        if defaults.get(k) != v:
-            raise RuntimeError('gen_c06: MessageHeader.__init__ default of %s is %r, the model transcribes %r' % (k, defaults.get(k), v))
-    try:
-        proto = int(defaults['protocol_version'], 0)
-    except Exception:
-        raise RuntimeError('gen_c06: protocol_version default not a literal: %r' % defaults.get('protocol_version'))
-    src = vf.repo_file(DEFS)
-    m = re.search(r'INVALID_SOURCE_ID\s*=\s*(0[xX][0-9a-fA-F]+|\d+)', src)
-    if not m:
-        raise RuntimeError('gen_c06: INVALID_SOURCE_ID not recognised')
-    # the byte at which calculate_crc / validate_crc start the CRC: the constant lower bound of the slice handed to crc32
-    def crc_slices(fn):
-        out = []
-        for n in ast.walk(fn):
-            if isinstance(n, ast.Call) and _norm(n.func) == 'crc32' and n.args and isinstance(n.args[0], ast.Subscript) \
-                    and isinstance(n.args[0].slice, ast.Slice):
-                out.append(n.args[0].slice)
-        return out
-    cs = crc_slices(_method(tree, 'MessageHeader', 'calculate_crc'))
-    if len(cs) != 1 or cs[0].upper is not None or not isinstance(cs[0].lower, ast.Constant) or not isinstance(cs[0].lower.value, int):
-        raise RuntimeError('gen_c06: calculate_crc: expected one crc32(<packed header>[K:]) call, got %r' % [_norm(c) for c in cs])
-    m1 = cs[0].lower.value
-    vs = crc_slices(_method(tree, 'MessageHeader', 'validate_crc'))
-    lo = vs[0].lower if len(vs) == 1 else None
-    if not (isinstance(lo, ast.BinOp) and isinstance(lo.op, ast.Add) and _norm(lo.left) == 'offset' and isinstance(lo.right, ast.Constant)
-            and isinstance(lo.right.value, int) and vs[0].upper is not None):
-        raise RuntimeError('gen_c06: validate_crc: expected one crc32(buffer[offset + K:<end>]) call, got %r' % [_norm(c) for c in vs])
-    m2 = lo.right.value
-    if not re.search(r'^from zlib import crc32$', src, re.M):
-        raise RuntimeError('gen_c06: crc32 is not zlib.crc32 in defs.py')
-    return {'PROTOCOL_VERSION': proto, 'INVALID_SOURCE_ID': int(m.group(1), 0),
-            'PY_CALC_CRC_START': m1, 'PY_VALIDATE_CRC_START': m2}
-
-
-def enc_consts():
-    """how encode_message advances self.sequence_number (everything else about it is held by correspondence)"""
-    tree = ast.parse(vf.repo_file(ENC))
-    fn = _method(tree, 'FusionEngineEncoder', 'encode_message')
-    ups = []
-    for n in ast.walk(fn):
-        if isinstance(n, ast.AugAssign) and _norm(n.target) == 'self.sequence_number':
-            ups.append(n)
-        elif isinstance(n, ast.Assign) and len(n.targets) == 1 and _norm(n.targets[0]) == 'self.sequence_number':
-            ups.append(n)
-    if len(ups) != 1:
-        raise RuntimeError('gen_c06: encode_message: expected exactly one update of self.sequence_number, found %d' % len(ups))
-    u = ups[0]
-    if isinstance(u, ast.AugAssign):
-        if not (isinstance(u.op, ast.Add) and isinstance(u.value, ast.Constant) and u.value.value == 1):
-            raise RuntimeError('gen_c06: sequence counter update not recognised: %r' % _norm(u))
-        mod = 0          # Python int, never reduced
-    else:
-        v = u.value
-        ok = isinstance(v, ast.BinOp) and isinstance(v.op, (ast.Mod, ast.BitAnd)) and _norm(v.left) in ('self.sequence_number + 1', '1 + self.sequence_number')
-        if not ok:
-            raise RuntimeError('gen_c06: sequence counter update not recognised: %r' % _norm(u))
+# validate_crc: which K, at offsets 0 and 5
+cands = set(range(out['size'] + 1))
+for off in (0, 5, 0, 5):
+    h = fresh(); p = bytes(rng.getrandbits(8) for _ in range(rng.choice([0, 3, 17])))
+    msg = bytes(h.pack(payload=p))
+    buf = bytes(rng.getrandbits(8) for _ in range(off)) + msg + bytes(rng.getrandbits(8) for _ in range(3))
+    ok = set()
+    for K in cands:
+        g = MessageHeader(); g.unpack(msg, warn_on_unrecognized=False)
+        g.crc = zlib.crc32(buf[off + K:off + len(msg)])
         try:
-            k = eval(compile(ast.Expression(v.right), '<gen_c06>', 'eval'), {'__builtins__': {}})
-        except Exception:
-            raise RuntimeError('gen_c06: sequence counter modulus is not a constant expression: %r' % _norm(v.right))
-        if isinstance(v.op, ast.BitAnd):
-            if not isinstance(k, int) or k <= 0 or k & (k + 1):
-                raise RuntimeError('gen_c06: sequence mask %r is not 2^k-1' % (k,))
-            mod = k + 1
-        else:
-            if not isinstance(k, int) or k <= 0:
-                raise RuntimeError('gen_c06: sequence modulus %r not a positive integer' % (k,))
-            mod = k
-    return {'ENC_SEQ_MODULUS': mod}
+            g.validate_crc(buf, off); ok.add(K)
+        except ValueError:
+            pass
+    cands &= ok
+out['valid_K'] = sorted(cands)
 
+# the sequence counter
+class Raw:
+    def get_type(self): return 60000
+    def get_version(self): return 0
+    def pack(self, *a, **k): return b'\x01'
+enc = FusionEngineEncoder()
+out['seq_init'] = int(enc.sequence_number)
+obs = []
+for s in (0, 1, 254, 255, 256, 65534, 65535, 65536, 2**31 - 1, 2**31, 2**32 - 2, 2**32 - 1):
+    enc = FusionEngineEncoder(); enc.sequence_number = s
+    try:
+        data = bytes(enc.encode_message(Raw(), 0))
+        carried = struct.unpack_from('<I', data, 12)[0]
+    except Exception as e:
+        carried = 'ERR:' + type(e).__name__
+    obs.append([s, carried, int(enc.sequence_number)])
+out['seq_obs'] = obs
+print(json.dumps(out))
+'''
 
-PROBE = r'''
+CPP_PROBE = r'''
 #include <cstddef>
+#include <cstdint>
 #include <cstdio>
+#include <cstdlib>
+#include <cstring>
+#include <vector>
+#include "point_one/fusion_engine/messages/crc.h"
 #include "point_one/fusion_engine/messages/defs.h"
-using point_one::fusion_engine::messages::MessageHeader;
+using namespace point_one::fusion_engine::messages;
+static uint32_t rnd() { static uint32_t s = 606; s = s * 1664525u + 1013904223u; return s >> 8; }
+static std::vector<uint8_t> message(uint32_t psize, size_t extra = 0) {   // correct message of 24 + psize bytes
+  std::vector<uint8_t> v(sizeof(MessageHeader) + psize + extra);
+  for (auto& b : v) b = (uint8_t)rnd();
+  MessageHeader* h = reinterpret_cast<MessageHeader*>(v.data());
+  h->payload_size_bytes = psize;
+  h->crc = CalculateCRC(v.data());
+  return v;
+}
 int main() {
-  printf("%zu %zu %zu %zu %zu %zu %zu %zu\n", sizeof(MessageHeader), offsetof(MessageHeader, protocol_version),
-         offsetof(MessageHeader, crc), offsetof(MessageHeader, payload_size_bytes), sizeof(size_t) * 8,
-         sizeof(MessageHeader::crc), sizeof(MessageHeader::payload_size_bytes), (size_t)MessageHeader::MAX_MESSAGE_SIZE_BYTES);
-  unsigned x = 1; printf("%d\n", (int)*(unsigned char*)&x);
+  unsigned x = 1;
+  printf("L %zu %zu %zu %zu %zu %zu %zu %d %llu\n", sizeof(MessageHeader), offsetof(MessageHeader, crc),
+         offsetof(MessageHeader, payload_size_bytes), sizeof(size_t) * 8, sizeof(MessageHeader::crc),
+         sizeof(MessageHeader::payload_size_bytes), offsetof(MessageHeader, protocol_version), (int)*(unsigned char*)&x,
+         (unsigned long long)MessageHeader::MAX_MESSAGE_SIZE_BYTES);
+  // K: CalculateCRC(buffer) == CalculateCRC(buffer + K, 24 - K + psize, 0) on every probe
+  printf("K");
+  for (size_t K = 0; K <= sizeof(MessageHeader); ++K) {
+    bool all = true;
+    for (int t = 0; t < 8; ++t) {
+      auto v = message((uint32_t)(t * 7 % 23));
+      uint32_t ps = reinterpret_cast<MessageHeader*>(v.data())->payload_size_bytes;
+      if (CalculateCRC(v.data()) != CalculateCRC(v.data() + K, sizeof(MessageHeader) - K + ps, 0)) all = false;
+    }
+    if (all) printf(" %zu", K);
+  }
+  printf("\n");
+  // default initial value behaves as 0
+  auto d = message(9);
+  printf("D %d\n", CalculateCRC(d.data(), d.size()) == CalculateCRC(d.data(), d.size(), 0) ? 1 : 0);
+  // IsValid: correct -> true, any single corrupted byte of crc field / region -> false
+  int ok = 1;
+  for (int t = 0; t < 6; ++t) {
+    auto v = message((uint32_t)(t * 5));
+    if (!IsValid(v.data())) ok = 0;
+    size_t i = 4 + rnd() % (v.size() - 4);
+    if (i >= 16 && i < 20) i = 20;
+    v[i] ^= 0x10;
+    if (IsValid(v.data())) ok = 0;
+  }
+  printf("V %d\n", ok);
+  // size limit: exactly MAX accepted, MAX + 1 refused although its CRC is correct
+  size_t mx = MessageHeader::MAX_MESSAGE_SIZE_BYTES;
+  auto a = message((uint32_t)(mx - sizeof(MessageHeader)));
+  auto b = message((uint32_t)(mx - sizeof(MessageHeader) + 1));
+  printf("M %d %d\n", IsValid(a.data()) ? 1 : 0, IsValid(b.data()) ? 1 : 0);
   return 0;
 }
 '''
 
 
+def _hash_files(paths):
+    h = hashlib.sha1()
+    for p in paths:
+        h.update(open(p, 'rb').read())
+    return h.hexdigest()[:16]
+
+
+def py_consts():
+    rc, so, se = vf.sh([vf.PY, '-c', PY_PROBE], env=vf.IMPL_ENV, timeout=180)
+    if rc != 0:
+        raise RuntimeError('gen_c06: the Python probe failed: ' + (so + se)[-800:])
+    o = json.loads(so.strip().split('\n')[-1])
+    d = o['defaults']
+    want0 = {k: d[k] for k in ('reserved', 'crc', 'sequence_number', 'message_version', 'payload_size_bytes')}
+    if any(v != 0 for v in want0.values()) or o['typed'] != 12345 or o['size'] != 24:
+        raise RuntimeError('gen_c06: MessageHeader() defaults are not the transcribed ones (zero fields, type from the argument, 24 bytes): %r' % o)
+    if len(o['calc_K']) != 1:
+        raise RuntimeError('gen_c06: calculate_crc(payload) is not zlib.crc32(packed_header[K:] + payload) for a unique K (candidates %r)' % o['calc_K'])
+    if len(o['valid_K']) != 1:
+        raise RuntimeError('gen_c06: validate_crc() does not accept exactly crc32(buffer[offset+K : offset+size]) for a unique K (candidates %r)' % o['valid_K'])
+    if o['seq_init'] != 0:
+        raise RuntimeError('gen_c06: a new encoder starts at sequence number %r, the model transcribes 0' % o['seq_init'])
+    obs = o['seq_obs']
+    if any(c != s for s, c, _ in obs):
+        raise RuntimeError('gen_c06: encode_message does not carry the current counter value: %r' % obs)
+    if all(n == s + 1 for s, _, n in obs):
+        mod = 0                                           # never reduced
+    else:
+        s, _, n = next(t for t in obs if t[2] != t[0] + 1)
+        mod = s + 1 - n
+        if mod <= 0 or any(nn != (ss + 1) % mod for ss, _, nn in obs if ss < mod):
+            raise RuntimeError('gen_c06: the sequence counter does not advance as (s + 1) mod M: %r' % obs)
+    return {'PROTOCOL_VERSION': d['protocol_version'], 'INVALID_SOURCE_ID': d['source_identifier'],
+            'PY_CALC_CRC_START': o['calc_K'][0], 'PY_VALIDATE_CRC_START': o['valid_K'][0], 'ENC_SEQ_MODULUS': mod}
+
+
 def cpp_consts():
-    cc = re.sub(r'\s+', ' ', re.sub(r'//[^\n]*', '', vf.repo_file(CRC_CC)))
-    m = re.findall(r'offsetof\( ?MessageHeader, ?(\w+) ?\)', cc)
-    if m != ['protocol_version']:
-        raise RuntimeError('gen_c06: CalculateCRC(buffer) is expected to start at offsetof(MessageHeader, protocol_version); found %r' % m)
-    if 'sizeof(MessageHeader)' not in cc or 'payload_size_bytes' not in cc:
-        raise RuntimeError('gen_c06: CalculateCRC(buffer) size computation not recognised')
-    h = re.sub(r'\s+', ' ', re.sub(r'//[^\n]*', '', vf.repo_file(CRC_H)))
-    if not re.search(r'sizeof\(MessageHeader\) \+ header\.payload_size_bytes > MessageHeader::MAX_MESSAGE_SIZE_BYTES', h) \
-            or not re.search(r'header\.crc == CalculateCRC\(buffer\)|CalculateCRC\(buffer\) == header\.crc', h):
-        raise RuntimeError('gen_c06: IsValid() in crc.h: size test / CRC comparison not recognised')
-    if not re.search(r'uint32_t initial_value = 0\)', h):
-        raise RuntimeError('gen_c06: default initial_value of CalculateCRC not 0')
-    key = hashlib.sha1((PROBE + vf.repo_file(DEFS_H) + vf.REPO).encode()).hexdigest()[:16]
-    d = os.path.join(vf.BUILD, 'cpp')
+    base = os.path.join(vf.REPO, 'src/point_one/fusion_engine')
+    src = [os.path.join(base, 'messages', f) for f in ('crc.cc', 'crc.h', 'defs.h')] + [os.path.join(base, 'common/portability.h')]
+    d = os.path.join(vf.BUILD, 'gen_c06')
     os.makedirs(d, exist_ok=True)
-    cache = os.path.join(d, 'c06_probe_%s.txt' % key)
-    if not os.path.exists(cache):
-        src = os.path.join(d, 'c06_probe_%d.cc' % os.getpid())
-        exe = src[:-3]
-        with open(src, 'w') as f:
-            f.write(PROBE)
-        rc, so, se = vf.sh('clang++-14 -std=c++14 -I%s/src %s -o %s && %s' % (vf.REPO, src, exe, exe), timeout=120)
-        for p in (src, exe):
-            if os.path.exists(p):
-                os.remove(p)
+    key = _hash_files(src + [__file__])
+    cache = os.path.join(d, 'cpp_%s.json' % key)
+    if os.path.exists(cache):
+        return json.load(open(cache))
+    cc = os.path.join(d, 'probe_%s_%d.cc' % (key, os.getpid()))
+    exe = cc[:-3]
+    open(cc, 'w').write(CPP_PROBE)
+    try:
+        rc, so, se = vf.sh('clang++-14 -std=c++14 -O1 -I%s/src %s %s -o %s' % (vf.REPO, cc, src[0], exe), timeout=300)
         if rc != 0:
-            raise RuntimeError('gen_c06: layout probe failed: ' + se[-1500:])
-        vf.write_if_changed(cache, so)
-    lines = open(cache).read().split('\n')
-    v = [int(x) for x in lines[0].split()]
-    if len(v) != 8 or v[5] != 4 or v[6] != 4 or int(lines[1]) != 1:
-        raise RuntimeError('gen_c06: unexpected layout probe output %r (crc / payload_size_bytes must be 4-byte fields on a little-endian target)' % lines)
-    return {'CPP_HEADER_SIZE': v[0], 'CPP_CRC_OFFSET': v[1], 'CPP_OFF_CRC': v[2], 'CPP_OFF_PSIZE': v[3], 'CPP_SIZE_T_BITS': v[4],
-            'CPP_MAX_MESSAGE_SIZE_PROBED': v[7]}
+            raise RuntimeError('gen_c06: C++ probe does not compile: ' + se[-1500:])
+        rc, so, se = vf.sh([exe], timeout=120)
+    finally:
+        for f in (cc, exe):
+            try:
+                os.remove(f)
+            except OSError:
+                pass
+    ln = {l.split()[0]: l.split()[1:] for l in so.split('\n') if l.strip()}
+    if rc != 0 or not all(k in ln for k in 'LKDVM'):
+        raise RuntimeError('gen_c06: C++ probe failed: ' + (so + se)[-600:])
+    L = [int(x) for x in ln['L']]
+    if L[4] != 4 or L[5] != 4 or L[7] != 1:
+        raise RuntimeError('gen_c06: crc / payload_size_bytes must be 4-byte fields on a little-endian target: %r' % L)
+    if len(ln['K']) != 1:
+        raise RuntimeError('gen_c06: CalculateCRC(buffer) is not CalculateCRC(buffer + K, 24 - K + size) for a unique K (candidates %r)' % ln['K'])
+    if ln['D'] != ['1']:
+        raise RuntimeError('gen_c06: the default initial_value of CalculateCRC does not behave as 0')
+    if ln['V'] != ['1']:
+        raise RuntimeError('gen_c06: IsValid() is not "stored crc == CalculateCRC(buffer)" on the probes')
+    if ln['M'] != ['1', '0']:
+        raise RuntimeError('gen_c06: IsValid() size limit is not "24 + payload_size > MAX_MESSAGE_SIZE_BYTES is refused": %r' % ln['M'])
+    res = {'CPP_HEADER_SIZE': L[0], 'CPP_CRC_OFFSET': int(ln['K'][0]), 'CPP_OFF_CRC': L[1], 'CPP_OFF_PSIZE': L[2], 'CPP_SIZE_T_BITS': L[3],
+           'CPP_MAX_MESSAGE_SIZE_PROBED': L[8]}
+    json.dump(res, open(cache, 'w'))
+    return res
 
 
 def generate():
     vals = {}
     vals.update(py_consts())
-    vals.update(enc_consts())
     vals.update(cpp_consts())
-    t = vf.gen_header([DEFS, ENC, CRC_CC, CRC_H, DEFS_H + ' (layout via clang++-14)'])
+    t = vf.gen_header(['python/fusion_engine_client/messages/defs.py (imported, probed)', 'python/fusion_engine_client/parsers/encoder.py (imported, probed)',
+                       'src/point_one/fusion_engine/messages/crc.cc, crc.h, defs.h (compiled, probed)'])
     t += 'From Coq Require Import NArith.\nOpen Scope N_scope.\n'
     nat_keys = ('PY_CALC_CRC_START', 'PY_VALIDATE_CRC_START', 'CPP_HEADER_SIZE', 'CPP_CRC_OFFSET', 'CPP_OFF_CRC', 'CPP_OFF_PSIZE')
-    for k, v in vals.items():
-        if k in nat_keys:
-            t += 'Definition %s : nat := %d.\n' % (k, v)
-        else:
-            t += 'Definition %s : N := %d.\n' % (k, v)
+    order = ['PROTOCOL_VERSION', 'INVALID_SOURCE_ID', 'PY_CALC_CRC_START', 'PY_VALIDATE_CRC_START', 'ENC_SEQ_MODULUS', 'CPP_HEADER_SIZE',
+             'CPP_CRC_OFFSET', 'CPP_OFF_CRC', 'CPP_OFF_PSIZE', 'CPP_SIZE_T_BITS', 'CPP_MAX_MESSAGE_SIZE_PROBED']
+    for k in order:
+        t += 'Definition %s : %s := %d.\n' % (k, 'nat' if k in nat_keys else 'N', vals[k])
     t += '(* ENC_SEQ_MODULUS = 0 means: the counter is a Python int that is never reduced *)\n'
     vf.write_if_changed(os.path.join(vf.THEORIES, 'Generated', 'EncoderConsts.v'), t)
     return vals
